@@ -7,13 +7,13 @@ Open Scope N_scope.
 
 (* a store through MemoryInstance::write(owner, ..) changes only bytes of the stack region
    [ssp, sp) or of the heap region [hp, prev_hp) — for every memory, registers, address, data *)
-Theorem C24_owned_write :
+Theorem C24_owned :
   forall (m : amem) (o : ownregs) (a : N) (bs : bytes) (m' : amem),
     mem_write m o a bs = Ok m' ->
     forall x, m_data m' x <> m_data m x ->
               (o_ssp o <= x < o_sp o) \/ (o_hp o <= x < o_prev_hp o).
 Proof. exact mem_write_owned. Qed.
-Print Assumptions C24_owned_write.
+Print Assumptions C24_owned.
 
 (* same for MemoryInstance::memcopy (MCP / MCPI / LDC from memory) *)
 Theorem C24_owned_memcopy :
@@ -125,12 +125,12 @@ Print Assumptions C24_ldc_owner_refuses_heap.
 
 (* ---- the machine: every operation changes only owned bytes or the region of the VM's own
    write of that operation; the invariant is preserved; hence for every run *)
-Theorem C24_machine_step :
+Theorem C24_step :
   forall (s : vstate) (op : cop) (s' : vstate),
     Inv s -> step s op = Some s' ->
     forall x, m_data (v_mem s') x <> m_data (v_mem s) x -> in_owned (cur_owner s) x \/ vm_region s op x.
 Proof. exact step_changes. Qed.
-Print Assumptions C24_machine_step.
+Print Assumptions C24_step.
 
 Theorem C24_machine_invariant :
   forall (s : vstate) (op : cop) (s' : vstate),
